@@ -1,0 +1,122 @@
+//go:build verif
+
+package verifhook
+
+import (
+	"runtime"
+	"sync"
+	"sync/atomic"
+	"time"
+)
+
+// Action describes what an armed Point does when it is hit.
+type Action struct {
+	// Yields is the number of runtime.Gosched calls.
+	Yields int
+	// Sleep is slept after yielding.
+	Sleep time.Duration
+	// Prob is the probability in 1/65536 units that the action is taken (0 = always).
+	Prob uint32
+}
+
+type slot struct {
+	act  atomic.Pointer[Action]
+	hits atomic.Uint64
+	rng  atomic.Uint64
+}
+
+var slots [NumPoints]slot
+
+// Arm installs an action at a point. A nil action disarms the point.
+func Arm(id uint16, a *Action) {
+	if id >= NumPoints {
+		return
+	}
+	slots[id].act.Store(a)
+}
+
+// DisarmAll removes every action.
+func DisarmAll() {
+	for i := range slots {
+		slots[i].act.Store(nil)
+	}
+}
+
+// Seed seeds the per point generators.
+func Seed(seed uint64) {
+	for i := range slots {
+		slots[i].rng.Store(seed*0x9E3779B97F4A7C15 + uint64(i)*0xBF58476D1CE4E5B9 + 1)
+	}
+}
+
+// Hits returns how many times the point was reached.
+func Hits(id uint16) uint64 {
+	if id >= NumPoints {
+		return 0
+	}
+	return slots[id].hits.Load()
+}
+
+// Point is an injection point.
+func Point(id uint16) {
+	if id >= NumPoints {
+		return
+	}
+	s := &slots[id]
+	s.hits.Add(1)
+	a := s.act.Load()
+	if a == nil {
+		return
+	}
+	if a.Prob != 0 {
+		x := s.rng.Add(0x9E3779B97F4A7C15)
+		x ^= x >> 30
+		x *= 0xBF58476D1CE4E5B9
+		x ^= x >> 27
+		x *= 0x94D049BB133111EB
+		x ^= x >> 31
+		if uint32(x&0xffff) >= a.Prob {
+			return
+		}
+	}
+	for i := 0; i < a.Yields; i++ {
+		runtime.Gosched()
+	}
+	if a.Sleep > 0 {
+		time.Sleep(a.Sleep)
+	}
+}
+
+// Event is one observation recorded by Emit.
+type Event struct {
+	Kind    uint8
+	A, B, C uint64
+}
+
+var (
+	sinkMu  sync.Mutex
+	sinkOn  atomic.Bool
+	sinkBuf []Event
+)
+
+// EnableSink turns recording of Emit events on or off.
+func EnableSink(on bool) { sinkOn.Store(on) }
+
+// Drain returns and clears the recorded events.
+func Drain() []Event {
+	sinkMu.Lock()
+	defer sinkMu.Unlock()
+	out := sinkBuf
+	sinkBuf = nil
+	return out
+}
+
+// Emit records an observation if the sink is enabled.
+func Emit(kind uint8, a, b, c uint64) {
+	if !sinkOn.Load() {
+		return
+	}
+	sinkMu.Lock()
+	sinkBuf = append(sinkBuf, Event{kind, a, b, c})
+	sinkMu.Unlock()
+}
